@@ -667,3 +667,82 @@ def j_windows(P, E):
                       "the late subscriber is handed the recorded state and attached to the live subject in two separate steps "
                       "(no state guard is live at the attach): a push landing in between is delivered twice or lost", body=src)
     return r
+
+
+# --------------------------------------------------------------------------- LATE-HANDLE (C06 / C10)
+
+def late_handle(P, E):
+    """Behavior/ReplaySubject hand a new subscriber recorded state synchronously.  If the subscriber
+    ends on it (take(1), first()) its teardown runs at once - possibly before the relay to the live
+    subject exists or before its Subscription is stored.  Conditions:
+      LH1 an attach that follows an emission to the subscriber is dominated by the subscribed edge
+          of a re-check `s.is_subscribed()`;
+      LH2 if the attach expression itself replays to the subscriber (ready_set_go action), the store
+          of the returned Subscription is followed on every path by a re-check whose not-subscribed
+          edge unsubscribes that Subscription."""
+    from rules_o import _branches_on_calls
+    r = RuleResult("LATE-HANDLE", "a subscriber that finishes during the hand-over is not left attached to the live subject")
+    for owner in ("subjects::behavior_subject::BehaviorSubject", "subjects::replay_subject::ReplaySubject"):
+        src = source_closure_of(P, owner + "::observable")
+        if src is None:
+            r.error("anchor missing: %s::observable source closure" % owner)
+            continue
+        dom = src.dominators()
+
+        def on_s(c):
+            return c.args and all(rk == "param" and rd == 2 for (rk, rd, _) in src.operand_prov(c.args[0]))
+
+        emits = [c for c in src.calls if atom(c) in ("obs_next",) and on_s(c)]
+        attaches = [c for c in src.calls if atom(c) in ("subscribe", "ready_set_go")]
+        gates = _branches_on_calls(src, [c for c in src.calls if atom(c) == "is_subscribed" and on_s(c)])
+        if not attaches:
+            r.error("LATE-HANDLE: attach call not found in %s" % owner)
+            continue
+        # LH1
+        for e in emits:
+            for a in attaches:
+                if a.bb not in src.reachable_from(e.bb):
+                    continue
+                r.instance((owner, "LH1"), True, "emission bb%d before attach bb%d" % (e.bb, a.bb))
+                ok = any(g["true"] in dom[a.bb] and e.bb in dom[g["switch"]] and src.pred[g["true"]] == [g["switch"]] for g in gates)
+                if not ok:
+                    r.violate((owner, "attach after hand-over without liveness check"),
+                              "the subscriber is handed the recorded value and then attached to the live subject without "
+                              "re-checking that it is still subscribed: a subscriber that ended on that value (take(1)) stays in "
+                              "the subject's observer map forever", body=src, line=a.line)
+        # LH2
+        replaying = []
+        for a in attaches:
+            if atom(a) == "ready_set_go":
+                cl = a.arg_closure(0)
+                ab = P.bodies.get(cl) if cl else None
+                if ab is not None and any(atom(x) in ("obs_next", "obs_error", "obs_complete") for b2 in [ab] + P.descendants(ab) for x in b2.calls):
+                    replaying.append(a)
+        if replaying:
+            stores = []
+            for i in sorted(src.reach):
+                for j, st in enumerate(src.blocks[i]["stmts"]):
+                    if st["k"] == "assign" and len(st["lhs"]) > 1 and "*" in st["lhs"] and st["rv"]["k"] == "use":
+                        for t in src.operand_prov(st["rv"]["op"]):
+                            if t[0] == "agg":
+                                stores.append(i)
+            unsubs = [c.bb for c in src.calls if atom(c) == "sub_unsubscribe"]
+            r.instance((owner, "LH2"), True, "stores %s, gates %s, release calls %s" % (sorted(set(stores)), [g["switch"] for g in gates], unsubs))
+            ok = False
+            for g in gates:
+                if g["false"] is None:
+                    continue
+                # the gate comes after the store on every path, and its not-subscribed edge reaches the release
+                after_store = any(sb in dom[g["switch"]] for sb in stores)
+                releases = any(u in src.reachable_from([g["false"]]) or u == g["false"] for u in unsubs)
+                covers = Effects.path_avoiding(src, src.returns, [g["switch"]], start=max(stores)) is None if stores else False
+                if after_store and releases and covers:
+                    ok = True
+            if not ok:
+                r.violate((owner, "replayed subscriber not released"),
+                          "the relay's Subscription is stored only after the replay; a subscriber that ended during the replay has "
+                          "already run its teardown (which found nothing), and nothing re-checks it afterwards: the relay stays "
+                          "attached to the live subject", body=src)
+        elif not emits:
+            r.instance((owner, "no synchronous hand-over"), False)
+    return r
